@@ -289,6 +289,12 @@ def run(ctx):
         k = rng.choice([2, 3, 3, 4, 5, 6])
         add("lpc", " ".join(rng.choice(alphabet if rng.random() < 0.5 else NOISE_TOKENS) for _ in range(k)), "seq-check")
 
+    # structured multi-line constructs (doc/block comments, strings, collections, …) with independent per-line indentation
+    for k, (mode, b, name) in enumerate(LC.multiline_grid()):
+        if mode == "n":
+            add("lpc" if k % 12 == 0 else "lp", b, "multiline-grid")
+            if k % 6 == 0:
+                add("lp", b"def f\n  " + b.replace(b"\n", b"\n  ") + b"\nend", "multiline-grid")
     # token-level mutants of the tree's Elk sources
     nmut = ctx.n(8000, 200000)
     chunks = LC.chunks(seeds, rng, nmut // 3 + 10, 1200)
@@ -332,6 +338,23 @@ def run(ctx):
             lines.append("rx\ttr\t%d\t%s\t%s" % (fl, hx(pb), lt))
             origin.append("regex")
 
+    # canaries: when a stage crashes on a trivial program (e.g. a lexer defect hit while the checker loads the std headers in
+    # its goroutines kills the worker on EVERY input), report that once and leave the stage out of the sweep
+    dead = ""
+    for st in "lpc":
+        cl = "fe\trun\t%s\t%s" % (st, hx("x = 1\nprintln x"))
+        ca = LC.confirm_hangs([cl], vlib.run_impl([cl]), ctx.stat)[0]
+        if bad(ca):
+            dead += st
+            ctx.stat("stage-dead:" + st)
+            ctx.violation("property-fails", {"line": cl}, f"{site_of(ca)}: the stage fails on a trivial program: {ca[:300]}")
+    if dead:
+        def strip(l):
+            f = l.split("\t")
+            if f[0] == "fe" and f[1] == "run":
+                f[2] = "".join(c for c in f[2] if c not in dead) or "l"
+            return "\t".join(f)
+        lines = [strip(l) for l in lines]
     impl = LC.confirm_hangs(lines, run_parallel(lines), ctx.stat)
     sites = {}
     for idx, (ln, o, a) in enumerate(zip(lines, origin, impl)):
@@ -382,4 +405,4 @@ def run(ctx):
             unknown += 1
     ctx.extra["crash_sites"] = sorted(sites)
     ctx.obligation(f"search: {len(lines)} inputs through the front end, every run returned within the budget without a Go panic "
-                   f"(known findings excepted)", unknown == 0, "search")
+                   f"(known findings excepted)", unknown == 0 and not dead, "search")
